@@ -83,6 +83,10 @@ func exactDist(q P, ps []P, closed bool) float64 {
 }
 
 func isConvex(open []P) bool {
+	// all turns in one direction is not enough (a pentagram turns one way too): the ring must also be simple
+	if !exact.IsSimpleRing(open) {
+		return false
+	}
 	n := len(open)
 	s := 0
 	for i := 0; i < n; i++ {
